@@ -83,6 +83,18 @@ Print Assumptions C02_distributions_py_unfolded_spectrum_layout.
 Print Assumptions C02_distributions_py_covariance_entry.
 Print Assumptions C02_distributions_py_covariance_symmetric.
 
+(* ---- the SOURCE of utils.parallelize (pinned on every run by translate/utils2coq.py into gen/UtilsGen.v): the reading "ordered map" that
+   the assembly above assumes of it holds whatever the parallelize / pbar flags: entry i of the result is func of entry i of the data ---- *)
+From PG Require Import gen.UtilsGen proofs.GenUtilsEquiv.
+Theorem C02_utils_py_parallelize_is_ordered_map :
+  forall (A B : Type) (func : A -> B) (data : list A) (par pbar : bool),
+    parallelize func data par pbar = map func data /\
+    (forall i da db, (i < length data)%nat -> nth i (parallelize func data par pbar) db = func (nth i data da)).
+Proof.
+  intros A B func data par pbar. split; [apply gen_parallelize_is_ordered_map | intros i da db Hi; apply gen_parallelize_entry; exact Hi].
+Qed.
+Print Assumptions C02_utils_py_parallelize_is_ordered_map.
+
 From mathcomp Require Import all_ssreflect all_algebra.
 From PG Require Import proofs.ExpLaws.
 Set Implicit Arguments. Unset Strict Implicit. Unset Printing Implicit Defensive.
